@@ -81,7 +81,7 @@ def gen_case(rng, kind, d, m, source, nb, nt, malformed=False):
 
 def gen_cases(rng, tier):
     cases = []
-    reps = 6 if tier == "quick" else 24
+    reps = 6 if tier == "quick" else 72
     for kind in ("statio", "nonstatio"):
         for d in (1, 2):
             for r in range(reps):
